@@ -247,17 +247,26 @@ Qed.
 
 (* in the tie-break branch chain, consensus store and finalized height are restored when the old tip is re-accepted with
    the consensus store it had, but Delete/New events have been published *)
-Theorem process_tiebreak_restores_state : forall s b p v x t r s',
+(* What is ASSUMED about re-applying the old tip on the state from which it was just deleted: execution is deterministic, i.e. the
+   answers are those of its first execution — the consensus store it produced is the one the node had, the precommitted height it
+   produced is not above the finalized height the node already stored, and its state root is the application's current root. *)
+Definition reexecution_deterministic (s : node) (t : tenv) (old : block) : Prop :=
+  xe_post_cs (te_old_x t) = n_cs s /\
+  xe_post_precommit (te_old_x t) <= n_finalized s /\
+  h_stateroot (b_header old) = n_app s.
+
+Theorem process_tiebreak_restores_state_partial : forall s b p v x t r s' old rest,
+  rev (n_chain s) = old :: rest ->
   process s b TieBreak p v x t = (PTieRestored r, s') ->
-  xe_post_cs (te_old_x t) = n_cs s ->
-  n_chain s' = n_chain s /\ n_cs s' = n_cs s /\ n_finalized s <= n_finalized s' /\
-  exists old extra, n_emitted s' = n_emitted s ++ PDelete (h_id (b_header old)) :: extra /\
-                    In (PNew (h_id (b_header old)) (xe_nevents (te_old_x t))) extra.
+  reexecution_deterministic s t old ->
+  s' = mkNode (n_chain s) (n_cs s) (n_finalized s)
+              (n_emitted s ++ [PDelete (h_id (b_header old)); PNew (h_id (b_header old)) (xe_nevents (te_old_x t))]
+                           ++ (if xe_params_changed (te_old_x t) then [PValidators] else []))
+              (n_app s).
 Proof.
-  intros s b p v x t r s'. unfold process.
+  intros s b p v x t r s' old rest Er. unfold process.
   destruct (block_validate b p); [discriminate|].
-  destruct (rev (n_chain s)) as [|old rest] eqn:Er; [discriminate|].
-  unfold delete_tip. rewrite Er.
+  rewrite Er. unfold delete_tip. rewrite Er.
   destruct (_ <=? _); [discriminate|]. destruct (de_lookup_ok _); [|discriminate]. destruct (de_abi_revert_ok _); [|discriminate].
   destruct rest as [|r0 rest]; [discriminate|]. cbn [negb fst snd].
   set (s1 := mkNode _ _ _ _ _).
@@ -266,13 +275,9 @@ Proof.
   cbn in Hrej. rewrite (Hrej ltac:(discriminate)).
   unfold process_validated. destruct (tip_header s1); [|discriminate].
   destruct (verify_block _ _ _); [discriminate|]. destruct (execute_block _ _); [discriminate|].
-  intros Heq Hcs. inversion Heq; subst s'. clear Heq.
-  unfold commit_block, s1; cbn [n_chain n_cs n_finalized n_emitted].
+  intros Heq [Hcs [Hpre Happ]]. inversion Heq; subst s'. clear Heq.
+  unfold commit_block, s1; cbn [n_chain n_cs n_finalized n_emitted n_app].
   assert (Hc : n_chain s = rev (old :: r0 :: rest)) by (rewrite <- Er, rev_involutive; reflexivity).
-  repeat split.
-  - rewrite Hc. cbn. reflexivity.
-  - exact Hcs.
-  - destruct (_ <? _) eqn:E; [apply N.ltb_lt in E; lia|lia].
-  - exists old. eexists. rewrite <- app_assoc. cbn [app]. split; [reflexivity|].
-    apply in_or_app; right. cbn. left. reflexivity.
+  destruct (n_finalized s <? xe_post_precommit (te_old_x t)) eqn:E; [apply N.ltb_lt in E; lia|].
+  rewrite Hcs, Happ, Hc. cbn [rev app]. rewrite <- !app_assoc. reflexivity.
 Qed.
